@@ -10,7 +10,6 @@ import (
 	"go/types"
 	"strings"
 
-	"rscheck/cfgq"
 	"rscheck/core"
 	"rscheck/driver"
 	"rscheck/pat"
@@ -78,6 +77,7 @@ type predicate struct {
 	root    ast.Node                 // body of the literal being classified
 	folded  map[string]bool          // command names tested case-insensitively
 	r2      map[string]func()
+	body    *ast.BlockStmt // the analysed form of the predicate's body
 }
 
 func newPredicate(c *core.Ctx, name string) *predicate {
@@ -85,8 +85,12 @@ func newPredicate(c *core.Ctx, name string) *predicate {
 	if fn == nil {
 		return nil
 	}
-	p := &predicate{c: c, fn: fn, info: fn.Pkg.TypesInfo, x: tt.New(cfgq.Of(c.Program, fn)), helpers: map[string]*ast.CallExpr{}, r2: map[string]func(){}, folded: map[string]bool{}}
+	// the predicate's body with loops over fixed tables written out row by row (helpers stay calls:
+	// the decision table follows them itself, with parameter binding)
+	view := tt.ViewOf(c.Program, fn, "c06pred", func(*types.Func) bool { return true })
+	p := &predicate{c: c, fn: fn, info: fn.Pkg.TypesInfo, x: view.X(c.Program), body: view.Body, helpers: map[string]*ast.CallExpr{}, r2: map[string]func(){}, folded: map[string]bool{}}
 	p.x.Prog, p.x.LoopDecisions = c.Program, true
+	p.x.Rewrite = tt.PrefixBySlicing(p.info)
 	for _, f := range fn.Decl.Type.Params.List {
 		for _, n := range f.Names {
 			p.params = append(p.params, p.info.Defs[n])
@@ -106,7 +110,7 @@ func (p *predicate) confList(e ast.Expr) (string, bool) {
 		return f, true
 	}
 	// a local holding the list: blacklist := conf.Options.FilterKeyBlacklist
-	for _, root := range []ast.Node{p.root, p.fn.Decl.Body} {
+	for _, root := range []ast.Node{p.root, p.body} {
 		if root != nil {
 			if f, ok := tt.IsConfField(p.info, tt.Resolve(p.info, root, e, 2), ""); ok {
 				return f, true
@@ -133,6 +137,9 @@ func stringsCall(info *types.Info, e ast.Expr) (name string, args []ast.Expr) {
 	if !ok {
 		return "", nil
 	}
+	if id, ok := call.Fun.(*ast.Ident); ok && id.Name == tt.PrefixMarker {
+		return "HasPrefix", call.Args // the prefix test written by slicing (tt.PrefixBySlicing)
+	}
 	f := core.CalleeFunc(info, call)
 	if f == nil || f.Pkg() == nil || f.Pkg().Path() != "strings" {
 		return "", nil
@@ -143,6 +150,23 @@ func stringsCall(info *types.Info, e ast.Expr) (name string, args []ast.Expr) {
 // commaOkMap: id is the `ok` of `_, ok := M[k]`; returns M's object and k.
 func commaOkMap(info *types.Info, root ast.Node, e ast.Expr) (types.Object, ast.Expr) {
 	d, ok := tt.SingleDef(info, root, e)
+	if !ok {
+		// declared first (`var ok bool`) and assigned once: the declaration's zero value is never read
+		// when the assignment comes before every use, which holds for the test the caller asks about
+		// if the assignment is the only one
+		if id, isId := ast.Unparen(e).(*ast.Ident); isId {
+			var assigns []tt.Def
+			for _, dd := range tt.DefsOf(info, root, core.ObjOf(info, id)) {
+				if _, isDecl := dd.Stmt.(*ast.ValueSpec); isDecl && dd.Rhs == nil {
+					continue
+				}
+				assigns = append(assigns, dd)
+			}
+			if len(assigns) == 1 && assigns[0].Stmt != nil && assigns[0].Stmt.Pos() < e.Pos() {
+				d, ok = assigns[0], true
+			}
+		}
+	}
 	if !ok || d.Index != 1 {
 		return nil, nil
 	}
@@ -157,7 +181,7 @@ func commaOkMap(info *types.Info, root ast.Node, e ast.Expr) (types.Object, ast.
 func (p *predicate) classify(l tt.Lit) (string, bool, bool) {
 	info, body := p.info, l.Root
 	if body == nil {
-		body = p.fn.Decl.Body
+		body = p.body
 	}
 	p.root = body
 	e := ast.Unparen(l.Expr)
@@ -268,7 +292,7 @@ func (p *predicate) classify(l tt.Lit) (string, bool, bool) {
 
 // intOfElement: e is the integer parsed from the range value of rs.
 func (p *predicate) intOfElement(e ast.Expr, isElem func(ast.Expr) bool) bool {
-	d, ok := tt.SingleDef(p.info, p.fn.Decl.Body, e)
+	d, ok := tt.SingleDef(p.info, p.body, e)
 	if !ok || d.Rhs == nil {
 		return false
 	}
@@ -490,7 +514,7 @@ func matcher(c *core.Ctx, p *predicate, list, want string) {
 
 // decimal: e is FormatInt(int64(db),10) / Itoa(db) / Sprintf("%d", db) of parameter 0.
 func (p *predicate) decimal(e ast.Expr) bool {
-	e = tt.Resolve(p.info, p.fn.Decl.Body, e, 2)
+	e = tt.Resolve(p.info, p.body, e, 2)
 	for _, s := range []string{"strconv.FormatInt(int64(_d), 10)", "strconv.Itoa(_d)", "strconv.Itoa(int(_d))", `fmt.Sprintf("%d", _d)`, "fmt.Sprint(_d)"} {
 		if b := pat.Expr(s).Match(p.info, e, nil); b != nil && p.isParam(b["_d"].(ast.Expr), 0) {
 			return true
@@ -516,8 +540,9 @@ func helperKind(c *core.Ctx, h *core.Fn, subjIdx, listIdx int) string {
 		id, ok := ast.Unparen(e).(*ast.Ident)
 		return ok && o != nil && core.ObjOf(info, id) == o
 	}
-	x := tt.New(cfgq.Of(c.Program, h))
+	x := tt.ViewOf(c.Program, h, "c06pred", func(*types.Func) bool { return true }).X(c.Program)
 	x.Prog, x.LoopDecisions = c.Program, true
+	x.Rewrite = tt.PrefixBySlicing(info)
 	traces, err := x.Traces(x.G.CFG.Blocks[0], 0, nil, 50)
 	if err != nil {
 		return ""
@@ -549,9 +574,56 @@ func helperKind(c *core.Ctx, h *core.Fn, subjIdx, listIdx int) string {
 			}
 			return ""
 		}
+		lenArg := func(e ast.Expr) ast.Expr {
+			call, ok := ast.Unparen(e).(*ast.CallExpr)
+			if !ok || len(call.Args) != 1 {
+				return nil
+			}
+			if id, ok := call.Fun.(*ast.Ident); !ok || id.Name != "len" {
+				return nil
+			}
+			return call.Args[0]
+		}
+		if be, ok := ast.Unparen(l.Expr).(*ast.BinaryExpr); ok && (be.Op == token.LSS || be.Op == token.GTR || be.Op == token.LEQ || be.Op == token.GEQ) {
+			// the length guard of a hand-written prefix test: "the entry is longer than the subject"
+			a, b := lenArg(be.X), lenArg(be.Y)
+			if a != nil && b != nil {
+				switch {
+				case isElem(a) && isSubj(b) && be.Op == token.GTR, isSubj(a) && isElem(b) && be.Op == token.LSS:
+					return "entry-too-long", true, true
+				case isElem(a) && isSubj(b) && be.Op == token.LEQ, isSubj(a) && isElem(b) && be.Op == token.GEQ:
+					return "entry-too-long", false, true
+				}
+			}
+			return "", false, false
+		}
 		if name, args := stringsCall(info, l.Expr); name != "" && len(args) == 2 {
 			k = classifyCall(name, args)
 		} else if be, ok := ast.Unparen(l.Expr).(*ast.BinaryExpr); ok && (be.Op == token.EQL || be.Op == token.NEQ) {
+			// subject[:len(entry)] == entry under a length guard in the same loop is HasPrefix(subject, entry)
+			for _, pair := range [][2]ast.Expr{{be.X, be.Y}, {be.Y, be.X}} {
+				sl, ok := ast.Unparen(pair[0]).(*ast.SliceExpr)
+				if !ok || sl.Low != nil || sl.Slice3 || sl.High == nil || !isSubj(sl.X) || !isElem(pair[1]) {
+					continue
+				}
+				if hp := lenArg(sl.High); hp == nil || !isElem(hp) {
+					continue
+				}
+				guarded := false
+				ast.Inspect(l.Loop, func(n ast.Node) bool {
+					if g, ok := n.(*ast.BinaryExpr); ok && (g.Op == token.LSS || g.Op == token.GTR || g.Op == token.LEQ || g.Op == token.GEQ) {
+						a, b := lenArg(g.X), lenArg(g.Y)
+						if a != nil && b != nil && (isElem(a) && isSubj(b) || isSubj(a) && isElem(b)) {
+							guarded = true
+						}
+					}
+					return true
+				})
+				if guarded {
+					kind = "prefix"
+					return "hit", be.Op == token.EQL, true
+				}
+			}
 			if isSubj(be.X) && isElem(be.Y) || isSubj(be.Y) && isElem(be.X) {
 				kind = "equal"
 				return "hit", be.Op == token.EQL, true
@@ -577,7 +649,22 @@ func helperKind(c *core.Ctx, h *core.Fn, subjIdx, listIdx int) string {
 	if err != nil || kind == "" {
 		return ""
 	}
-	for _, v := range tt.Compare(rows, []string{"hit"}, nil, []tt.Want{
+	universe := []string{"hit"}
+	for _, a := range tt.Atoms(rows) {
+		if a == "entry-too-long" {
+			// a path leaves the scan at an entry that cannot match: the entries after it are never tried
+			universe = append(universe, a)
+		}
+	}
+	if len(universe) > 1 {
+		for _, v := range tt.Compare(rows, universe, nil, []tt.Want{{Name: "hit", When: map[string]bool{"hit": true}, Out: "true"}}) {
+			if !v.Undecided && !v.OK {
+				return kind + " that stops at the first entry longer than the subject (later entries are never tried)"
+			}
+		}
+		return ""
+	}
+	for _, v := range tt.Compare(rows, universe, nil, []tt.Want{
 		{Name: "hit", When: map[string]bool{"hit": true}, Out: "true"},
 		{Name: "miss", When: map[string]bool{"hit": false}, Out: "false"},
 	}) {
